@@ -155,7 +155,97 @@ func (vc *VC) chanInv(ch ssa.Value, v TV, st *State) (string, bool) {
 	return and(cs...), true
 }
 
+// ---------------------------------------------------------------------------
+// FIFO channels: the k-th message received on a channel is the k-th message sent on it. fifo(ch, k) is
+// the (never changing) log of everything ever sent on ch; sendn counts the sends, recvn the receives.
+// Both counters survive havoc: they are only advanced by the sends/receives of the function at hand
+// (single sender / single receiver goroutine per tracked channel: stated as an assumption).
+
+func (vc *VC) isFifoChan(ch ssa.Value) bool {
+	ld, ok := ch.(*ssa.UnOp)
+	if !ok || ld.Op != token.MUL {
+		return false
+	}
+	fa, ok := ld.X.(*ssa.FieldAddr)
+	if !ok {
+		return false
+	}
+	pt := fa.X.Type().Underlying().(*types.Pointer).Elem()
+	n, ok := pt.(*types.Named)
+	if !ok {
+		return false
+	}
+	name := n.Obj().Name() + "." + pt.Underlying().(*types.Struct).Field(fa.Field).Name()
+	for _, tc := range vc.prog.cs.FifoChans {
+		if tc == name {
+			return true
+		}
+	}
+	return false
+}
+
+func (vc *VC) fifoFn() string {
+	if !vc.declared["fifo!log"] {
+		vc.declared["fifo!log"] = true
+		vc.decls = append(vc.decls, "(declare-fun fifo!log (Loc Int) Loc)")
+	}
+	vc.heapKeySort("#fifo.sendn", types.Typ[types.Int])
+	vc.heapKeySort("#fifo.recvn", types.Typ[types.Int])
+	return "fifo!log"
+}
+
+func (vc *VC) fifoSend(ch ssa.Value, val TV, cond string, st *State) {
+	if !vc.isFifoChan(ch) {
+		return
+	}
+	f := vc.fifoFn()
+	I := types.Typ[types.Int]
+	c := vc.val(ch).S
+	n := vc.heapRead(st, "#fifo.sendn", I, c)
+	vc.assumeNote("tracked channels have one sending and one receiving goroutine; messages are delivered in the order sent")
+	vc.assume(vc.guard(), imp(cond, eq(sx(f, c, n), val.S)))
+	vc.assume(vc.guard(), sx("<=", "0", n))
+	vc.heapWrite(st, "#fifo.sendn", I, c, ite(cond, sx("+", n, "1"), n))
+}
+
+func (vc *VC) fifoRecv(ch ssa.Value, v TV, cond string, st *State) {
+	if !vc.isFifoChan(ch) {
+		return
+	}
+	f := vc.fifoFn()
+	I := types.Typ[types.Int]
+	c := vc.val(ch).S
+	n := vc.heapRead(st, "#fifo.recvn", I, c)
+	vc.assumeNote("tracked channels have one sending and one receiving goroutine; messages are delivered in the order sent")
+	vc.assume(vc.guard(), imp(cond, eq(v.S, sx(f, c, n))))
+	vc.assume(vc.guard(), sx("<=", "0", n))
+	vc.heapWrite(st, "#fifo.recvn", I, c, ite(cond, sx("+", n, "1"), n))
+}
+
+// sendPre: "callpre send:<field> @label e" clauses are checked at sends on that channel (arg0 = the
+// value being sent), before the send takes effect.
+func (vc *VC) sendPre(ch, val ssa.Value, cond string, st *State, pos token.Pos) {
+	if vc.fc == nil {
+		return
+	}
+	for i, cp := range vc.fc.CallPres {
+		if cp.Callee != "send:"+chanName(ch) {
+			continue
+		}
+		env := vc.newEnv(st, vc.entrySt)
+		env.vars["arg0"] = vc.val(val)
+		label := cp.C.Label
+		if label == "" {
+			label = fmt.Sprintf("callpre%d", i)
+		}
+		vc.oblige("callpre", cp.Callee+":"+label, imp(cond, vc.trBool(cp.C.E, env)), pos)
+		vc.callPreHit[i]++
+	}
+}
+
 func (vc *VC) sendHook(ch, val ssa.Value, st *State, pos token.Pos) {
+	vc.sendPre(ch, val, "true", st, pos)
+	vc.fifoSend(ch, vc.val(val), "true", st)
 	if inv, ok := vc.chanInv(ch, vc.val(val), st); ok {
 		vc.oblige("chan-payload", "send on "+chanName(ch), inv, pos)
 	}
@@ -165,6 +255,8 @@ func (vc *VC) sendHook(ch, val ssa.Value, st *State, pos token.Pos) {
 }
 
 func (vc *VC) selectSendHook(ch, val ssa.Value, cond string, st *State, pos token.Pos) {
+	vc.sendPre(ch, val, cond, st, pos)
+	vc.fifoSend(ch, vc.val(val), cond, st)
 	if inv, ok := vc.chanInv(ch, vc.val(val), st); ok {
 		vc.oblige("chan-payload", "send on "+chanName(ch), imp(cond, inv), pos)
 	}
@@ -174,6 +266,7 @@ func (vc *VC) selectSendHook(ch, val ssa.Value, cond string, st *State, pos toke
 }
 
 func (vc *VC) recvHook(ch ssa.Value, v TV, st *State, pos token.Pos) {
+	vc.fifoRecv(ch, v, "true", st)
 	if inv, ok := vc.chanInv(ch, v, st); ok {
 		vc.assume(vc.guard(), inv)
 	}
@@ -183,6 +276,7 @@ func (vc *VC) recvHook(ch ssa.Value, v TV, st *State, pos token.Pos) {
 }
 
 func (vc *VC) selectRecvHook(ch ssa.Value, v TV, cond string, st *State, pos token.Pos) {
+	vc.fifoRecv(ch, v, cond, st)
 	if inv, ok := vc.chanInv(ch, v, st); ok {
 		vc.assume(vc.guard(), imp(cond, inv))
 	}
